@@ -5,6 +5,7 @@ import (
 	"encoding/json"
 	"errors"
 	"fmt"
+	"os"
 	"strings"
 	"time"
 
@@ -26,6 +27,8 @@ type hostScn struct {
 	CloseAt int      `json:"close_at"` // close after this many chunks (0 = before any byte); -1 = never
 	Reset   bool     `json:"reset,omitempty"`
 	SameKey bool     `json:"same_key,omitempty"` // hostile client presents the victim's phone
+	// FailWrites: once the hostile client is gone, the server's writes to it may fail (an explorer choice)
+	FailWrites bool `json:"fail_writes,omitempty"`
 }
 
 const (
@@ -101,6 +104,7 @@ func hostMake(scn hostScn) func() (func(), any) {
 				defer hDone.Close()
 				p := r.w.dial()
 				r.set("h", p)
+				p.C.FailWrites = scn.FailWrites
 				end := func() {
 					if scn.Reset {
 						p.Reset()
@@ -115,7 +119,9 @@ func hostMake(scn hostScn) func() (func(), any) {
 					}
 					p.Send(unhx(pc))
 				}
-				p.Drained()
+				if !scn.FailWrites {
+					p.Drained()
+				}
 				if scn.CloseAt >= len(scn.Pieces) {
 					end()
 				}
@@ -414,6 +420,9 @@ func c10Run(ctx *vc.Ctx, rep *vc.Report) {
 	}
 	var idx int64
 	runHost := func(scn hostScn, bound int) {
+		if only := os.Getenv("VERIF_ONLY"); only != "" && !strings.Contains(scn.Name, only) {
+			return // debugging aid
+		}
 		idx++
 		if !ctx.Mine(idx) {
 			return
